@@ -205,3 +205,162 @@ Lemma class_equiv fuel c globals calls :
   run_class fuel c globals calls = run_explicit fuel c globals calls.
 Proof. unfold run_class, run_explicit. apply run_calls_equiv. Qed.
 
+
+(* ------------------------------------------------------------------ the explicit form is a fixpoint of the desugaring *)
+
+Scheme stmt_mind := Induction for stmt Sort Prop
+  with stmts_mind := Induction for stmts Sort Prop.
+Combined Scheme stmt_stmts_ind from stmt_mind, stmts_mind.
+
+Section Idem.
+Variable F M : list str.
+
+Lemma desugar_expr_idem e : forall scope, desugar_expr F M scope (desugar_expr F M scope e) = desugar_expr F M scope e.
+Proof.
+  induction e; intros scope; cbn [desugar_expr]; try congruence.
+  - destruct (mem_str x scope) eqn:Es; cbn [desugar_expr]; [now rewrite Es|].
+    destruct (mem_str x F) eqn:Ef; cbn [desugar_expr]; [reflexivity|]. now rewrite Es, Ef.
+  - destruct (mem_str m scope) eqn:Es; cbn [desugar_expr]; [now rewrite Es, IHe|].
+    destruct (mem_str m M) eqn:Em; cbn [desugar_expr]; [now rewrite IHe|]. now rewrite Es, Em, IHe.
+Qed.
+
+Lemma desugar_stmts_cons scope s r :
+  desugar_stmts F M scope (SCons s r) =
+  let '(s', sc') := desugar_stmt F M scope s in SCons s' (desugar_stmts F M sc' r).
+Proof. reflexivity. Qed.
+
+Lemma desugar_idem_both :
+  (forall s scope, desugar_stmt F M scope (fst (desugar_stmt F M scope s)) = desugar_stmt F M scope s) /\
+  (forall b scope, desugar_stmts F M scope (desugar_stmts F M scope b) = desugar_stmts F M scope b).
+Proof.
+  apply stmt_stmts_ind.
+  - intros x e scope. cbn [desugar_stmt fst].
+    destruct (mem_str x scope) eqn:Es; cbn [desugar_stmt]; [now rewrite Es, desugar_expr_idem|].
+    destruct (mem_str x F) eqn:Ef; cbn [desugar_stmt]; [now rewrite desugar_expr_idem|]. now rewrite Es, Ef, desugar_expr_idem.
+  - intros f e scope. cbn [desugar_stmt fst]. now rewrite desugar_expr_idem.
+  - intros x e scope. cbn [desugar_stmt fst]. now rewrite desugar_expr_idem.
+  - intros e scope. cbn [desugar_stmt fst]. now rewrite desugar_expr_idem.
+  - intros e scope. cbn [desugar_stmt fst]. now rewrite desugar_expr_idem.
+  - intros c t IHt f IHf scope. cbn [desugar_stmt fst]. now rewrite desugar_expr_idem, IHt, IHf.
+  - intros e scope. cbn [desugar_stmt fst]. now rewrite desugar_expr_idem.
+  - intros scope. reflexivity.
+  - intros s IHs r IHr scope. rewrite desugar_stmts_cons.
+    destruct (desugar_stmt F M scope s) as [s' scope'] eqn:E. rewrite desugar_stmts_cons.
+    specialize (IHs scope). rewrite E in IHs. cbn [fst] in IHs. rewrite IHs. now rewrite IHr.
+Qed.
+End Idem.
+
+Lemma desugar_class_idem c :
+  desugar_class (desugar_class c) = desugar_class c.
+Proof.
+  unfold desugar_class. cbn [cfields cmethods]. f_equal.
+  rewrite map_map. apply map_ext_in. intros m Hm. unfold desugar_method. cbn [mname mparam mbody cfields cmethods].
+  f_equal. rewrite map_map. cbn [mname].
+  replace (map (fun x : method => mname x) (cmethods c)) with (map mname (cmethods c)) by reflexivity.
+  apply (proj2 (desugar_idem_both (cfields c) (map mname (cmethods c)))).
+Qed.
+
+(* ------------------------------------------------------------------ the static-scope evaluator is ordinary lexical scoping *)
+
+Lemma mem_keys x env : mem_str x (map fst env) = bound x env.
+Proof.
+  unfold bound. induction env as [|[y v] t IH]; simpl; auto.
+  destruct (str_eqb x y); simpl; auto.
+Qed.
+
+Lemma sset_keys x v env : bound x env = true -> map fst (sset x v env) = map fst env.
+Proof.
+  unfold bound. induction env as [|[y w] t IH]; simpl; [discriminate|].
+  destruct (str_eqb x y); simpl; auto. intros H. f_equal. auto.
+Qed.
+
+Lemma map_fst_skipn {A B} n (l : list (A * B)) : map fst (skipn n l) = skipn n (map fst l).
+Proof. revert l. induction n; intros [|x l]; simpl; auto. Qed.
+
+Lemma skipn_app_exact {A} (a b : list A) : skipn (length a) (a ++ b) = b.
+Proof. induction a; simpl; auto. Qed.
+
+Section Dyn.
+Variable c : class.
+
+Definition D_expr (f : nat) : Prop := forall scope env st e,
+  map fst env = scope -> eval_expr ClassForm c f scope env st e = dyn_expr c f env st e.
+Definition D_call (f : nat) : Prop := forall m v st,
+  call_method ClassForm c f m v st = dyn_call c f m v st.
+Definition D_stmts (f : nat) : Prop := forall scope env st b,
+  map fst env = scope ->
+  eval_stmts ClassForm c f scope env st b = dyn_stmts c f env st b /\
+  (forall env1 st1 r, dyn_stmts c f env st b = Val (env1, st1, r) -> exists extra, map fst env1 = extra ++ scope).
+
+Ltac flds := simpl eval_stmts; simpl eval_expr; simpl call_method; simpl dyn_stmts; simpl dyn_expr; simpl dyn_call.
+
+Lemma D_step f : D_expr f /\ D_call f /\ D_stmts f -> D_expr (S f) /\ D_call (S f) /\ D_stmts (S f).
+Proof.
+  intros (IHe & IHc & IHs). unfold D_expr, D_call, D_stmts in *. refine (conj _ (conj _ _)).
+  - intros scope env st e Hk. destruct e; flds; auto.
+    + rewrite <- Hk, mem_keys. reflexivity.
+    + rewrite (IHe scope env st e1 Hk). destruct (dyn_expr c f env st e1) as [[x st1]| |]; auto.
+      rewrite (IHe scope env st1 e2 Hk). reflexivity.
+    + rewrite (IHe scope env st e1 Hk). destruct (dyn_expr c f env st e1) as [[x st1]| |]; auto.
+      rewrite (IHe scope env st1 e2 Hk). reflexivity.
+    + rewrite (IHe scope env st e1 Hk). destruct (dyn_expr c f env st e1) as [[x st1]| |]; auto.
+      rewrite (IHe scope env st1 e2 Hk). reflexivity.
+    + rewrite (IHe scope env st e Hk). destruct (dyn_expr c f env st e) as [[v st1]| |]; auto.
+      rewrite <- Hk, mem_keys. destruct (bound m env); auto.
+      destruct (mem_str m (map mname (cmethods c))); auto.
+    + rewrite (IHe scope env st e Hk). destruct (dyn_expr c f env st e) as [[v st1]| |]; auto.
+  - intros m v st. flds. destruct (find_method (cmethods c) m) as [md|]; auto.
+    destruct (IHs [mparam md] [(mparam md, v)] st (mbody md) eq_refl) as [E _]. rewrite E. reflexivity.
+  - intros scope env st b Hk. destruct b as [|s r]; flds.
+    + split; auto. intros env1 st1 r0 H. inversion H; subst. exists []. reflexivity.
+    + destruct s; flds.
+      * rewrite (IHe scope env st e Hk). destruct (dyn_expr c f env st e) as [[v st1]| |]; try (split; [reflexivity|discriminate]).
+        rewrite <- Hk at 1. rewrite mem_keys. destruct (bound x env) eqn:Eb.
+        -- apply IHs. rewrite sset_keys; auto.
+        -- destruct (is_field c x); apply IHs; exact Hk.
+      * rewrite (IHe scope env st e Hk). destruct (dyn_expr c f env st e) as [[v st1]| |]; try (split; [reflexivity|discriminate]).
+        apply IHs; exact Hk.
+      * rewrite (IHe scope env st e Hk). destruct (dyn_expr c f env st e) as [[v st1]| |]; try (split; [reflexivity|discriminate]).
+        destruct (IHs (x :: scope) ((x, v) :: env) st1 r) as [E Sh]; [simpl; now rewrite Hk|].
+        split; [exact E|]. intros env1 st2 r0 H. destruct (Sh _ _ _ H) as [extra Hx].
+        exists (extra ++ [x]). rewrite Hx, <- app_assoc. reflexivity.
+      * rewrite (IHe scope env st e Hk). destruct (dyn_expr c f env st e) as [[v st1]| |]; try (split; [reflexivity|discriminate]).
+        apply IHs; exact Hk.
+      * rewrite (IHe scope env st e Hk). destruct (dyn_expr c f env st e) as [[v st1]| |]; try (split; [reflexivity|discriminate]).
+        apply IHs; exact Hk.
+      * rewrite (IHe scope env st c0 Hk). destruct (dyn_expr c f env st c0) as [[v st1]| |]; try (split; [reflexivity|discriminate]).
+        destruct (IHs scope env st1 (if v =? 0 then f0 else t) Hk) as [E Sh]. rewrite E.
+        destruct (dyn_stmts c f env st1 (if v =? 0 then f0 else t)) as [[[env1 st2] [rv|]]| |] eqn:Eb;
+          try (split; [reflexivity|discriminate]).
+        -- split; [reflexivity|]. intros env2 st3 r0 H. inversion H; subst. exact (Sh _ _ _ eq_refl).
+        -- destruct (Sh _ _ _ eq_refl) as [extra Hx].
+           assert (Hk' : map fst (skipn (length env1 - length env) env1) = scope).
+           { rewrite map_fst_skipn, Hx.
+             assert (L1 : length env1 = (length extra + length scope)%nat)
+               by (rewrite <- (map_length fst env1), Hx, app_length; reflexivity).
+             assert (L2 : length env = length scope) by (rewrite <- Hk, map_length; reflexivity).
+             replace (length env1 - length env)%nat with (length extra) by lia. apply skipn_app_exact. }
+           apply IHs. exact Hk'.
+      * rewrite (IHe scope env st e Hk). destruct (dyn_expr c f env st e) as [[v st1]| |]; try (split; [reflexivity|discriminate]).
+        split; [reflexivity|]. intros env1 st2 r0 H. inversion H; subst. exists []. reflexivity.
+Qed.
+
+Lemma D_all f : D_expr f /\ D_call f /\ D_stmts f.
+Proof.
+  induction f as [|f IH]; [|apply D_step; exact IH].
+  unfold D_expr, D_call, D_stmts. refine (conj _ (conj _ _)); intros; try reflexivity.
+  split; [reflexivity|]. intros env1 st1 r H0. discriminate H0.
+Qed.
+
+Lemma run_calls_dyn fuel calls : forall st acc,
+  run_calls ClassForm c fuel calls st acc = dyn_calls c fuel calls st acc.
+Proof.
+  induction calls as [|[m v] t IH]; intros st acc; simpl; auto.
+  destruct (D_all fuel) as (_ & Dc & _). rewrite Dc.
+  destruct (dyn_call c fuel m v st) as [[r st1]| |]; auto.
+Qed.
+End Dyn.
+
+Lemma class_static_is_lexical fuel c globals calls :
+  run_class fuel c globals calls = run_class_dyn fuel c globals calls.
+Proof. unfold run_class, run_class_dyn. apply run_calls_dyn. Qed.
